@@ -317,7 +317,8 @@ def random_sessions(n, seed, tag, p_ill=0.0, first_id=1):
 
 # ----------------------------------------------------------------- expressions x contexts (C12 / C01)
 
-PRELUDE = [assign("x", I(1)), assign("a", lst([I(1), I(2), I(3)])), assign("f", fn(["n"], bin_("+", N("n"), I(1)))),
+# f computes n + 1 through nested operators, so that a call of it uses the callee's temp register and stack like any real function
+PRELUDE = [assign("x", I(1)), assign("a", lst([I(1), I(2), I(3)])), assign("f", fn(["n"], bin_("+", bin_("-", bin_("*", N("n"), I(2)), N("n")), I(1)))),
            assign("id", fn(["v"], N("v"))), assign("sv", St("vw"))]
 ATOMS = [I(2), N("x"), Fl(3, 1), St("a"), lst([I(1), I(2)]), call("f", I(1)), N("u"), Bo(True), N("a")]
 OPS10 = ["+", "-", "*", "/", "%", "==", "<", "&", "|", "<<"]
